@@ -86,10 +86,24 @@ def tier_params(tier):
     return (44, 3, 12) if tier == 'quick' else (110, 4, 28)
 
 
+CORPUS_SEED = 777
+
+
 def build_universe(seed, tier):
+    """the seeded universe, followed by the fixed corpus universe (definitions prefixed with K), whose
+    types are the ones of the golden corpus (C06)"""
     from universe import Universe
     n_types, depth, n_defs = tier_params(tier)
-    return Universe(seed, n_types=n_types, max_depth=depth, n_defs=n_defs).build()
+    u = Universe(seed, n_types=n_types, max_depth=depth, n_defs=n_defs).build()
+    c = Universe(CORPUS_SEED, n_types=40, max_depth=3, n_defs=10, prefix='K').build()
+    u.corpus_start = len(u.types)
+    u.corpus_rust = [t.rust() for t in c.types]
+    seen = set(t.rust() for t in u.types)
+    u.defs = u.defs + c.defs
+    for t in c.types:
+        if t.rust() not in seen:
+            seen.add(t.rust()); u.types.append(t)
+    return u
 
 
 def harness_build(u):
@@ -200,7 +214,7 @@ def answers_agree(impl, model):
         if len(ta) != len(tb):
             return False
         for x, y in zip(ta, tb):
-            if x == y:
+            if x == y or y == '*':
                 continue
             if ':' in x and ':' in y and x.split(':', 1)[0] == y.split(':', 1)[0]:
                 x, y = x.split(':', 1)[1], y.split(':', 1)[1]
